@@ -52,7 +52,13 @@ func NewWarmUpTrafficShapingCalculator(owner *TrafficShapingController, rule *Ru
 
 	maxToken := warningToken + uint64(2*float64(rule.WarmUpPeriodSec)*rule.Threshold/float64(1.0+coldFactor))
 
-	slope := float64(coldFactor-1.0) / rule.Threshold / float64(maxToken-warningToken)
+	// An empty token range (maxToken == warningToken: threshold*period is too small for a single
+	// token of ramp) has no slope: dividing by zero made every allowed value NaN, which the
+	// checker treats as "no limit".
+	slope := 0.0
+	if maxToken > warningToken {
+		slope = float64(coldFactor-1.0) / rule.Threshold / float64(maxToken-warningToken)
+	}
 
 	warmUpTrafficShapingCalculator := &WarmUpTrafficShapingCalculator{
 		owner:             owner,
